@@ -1,7 +1,8 @@
 """Configuration of the check for C15 (loaded by checklib/props.py; COMMON_TRUSTED / MODEL_TRUSTED are in scope)."""
 
 PROP = {'modules': ['AmVerif.Props.C15'],
- 'engines': [{'name': 'idle', 'quick': 20, 'thorough': 60}],
+ 'engines': [{'name': 'idle', 'quick': 20, 'thorough': 60},
+             {'name': 'hr', 'tag': 'hr-quiet', 'first': 2, 'quick': 1, 'thorough': 100, 'shrink': False, 'classes': ['rewritten-without-notification', 'sync-timeout']}],
  'rule': 'idle.run executes in a CHILD process: create 1-4 [thorough 8] caches over an in-memory source that keeps its EventSender / drops it at once / never stores it / drops it after use, or over '
          'FileSystem on a temp dir (real watcher), load, hot_reload, measure every assets_hot_reload thread while idle, drop the caches (idle / '
          'right after hot_reload / with 24 events just queued / with 24 loads just done), wait <= 400 ms, measure again. Measurement = scheduler '
